@@ -108,7 +108,21 @@ func main() {
 	switch os.Args[1] {
 	case "mutant-check":
 		// internal: check <prop> with the patch given in the environment
-		patchOverride = map[string][]byte{os.Getenv("VERIF_MUTANT_FILE"): []byte(os.Getenv("VERIF_MUTANT_NEW"))}
+		patchOverride = map[string][]byte{}
+		if f := os.Getenv("VERIF_MUTANT_FILE"); f != "" {
+			patchOverride[f] = []byte(os.Getenv("VERIF_MUTANT_NEW"))
+		}
+		if dir := os.Getenv("VERIF_PATCH_DIR"); dir != "" {
+			// a directory of repo-relative replacement files (seeded changes)
+			filepath.Walk(dir, func(path string, info os.FileInfo, err error) error {
+				if err == nil && !info.IsDir() && strings.HasSuffix(path, ".go") {
+					rel, _ := filepath.Rel(dir, path)
+					b, _ := os.ReadFile(path)
+					patchOverride[rel] = b
+				}
+				return nil
+			})
+		}
 		mutantRun = true
 		os.Exit(cmdCheck([]string{os.Args[2]}))
 	case "check":
